@@ -279,6 +279,56 @@ def check(repo: Repo, run: Run) -> None:
     run.ob("R3", main.name, "print_with_count", "stops consuming when the count is reached (test before print)", stops,
            "print_with_count does not break on the count before printing: limiting the count changes which lines are printed "
            "or consumes more input than needed", line=fn.lineno)
+    check_reported_objects(repo, run)
+
+
+def check_reported_objects(repo: Repo, run: Run) -> None:
+    """R6: what was reported is not changed later.  A decoder may build and fill the object it returns, and it may put
+    objects into the parser's tables; it may not store into an object it FETCHED from one of those tables - such an
+    object was returned (and reported) by an earlier invocation, so a later record would rewrite a trace that a truncated
+    dump had already reported differently."""
+    from .. import decoders
+    D = decoders.Decoders(repo)
+    n = 0
+    for e in D.entries():
+        d = D.decode(e)
+        n += 1
+        bad = []
+        for ef in d.rec.effects:
+            if ef.kind not in ("attr-store", "mut-call", "sub-store", "del-sub", "del-attr"):
+                continue
+            obj = ef.path if ef.path is not None else ef.base
+            if obj is None:
+                continue
+            # peel what is stored INTO (attribute / item chains) down to the object that is being changed
+            cur = obj
+            while cur.op == "mut":
+                cur = cur.a[0]
+            fetched = None
+            probe = cur
+            while probe is not None and probe.op in ("attr", "sub", "call"):
+                if probe.op == "call" and probe.a[0].op == "attr" and probe.a[0].a[1] in ("get", "pop", "setdefault") \
+                        and _is_parser_table(probe.a[0].a[0]):
+                    fetched = probe
+                    break
+                if probe.op == "sub" and _is_parser_table(probe.a[0]) and probe is not cur:
+                    fetched = probe
+                    break
+                probe = probe.a[0] if probe.op != "call" else None
+            if fetched is not None and ef.kind == "attr-store":
+                bad.append((ef, fetched))
+        run.ob("R6", e.module.name, e.func_name, f"{e.key}: changes only the object it builds", not bad,
+               "" if not bad else
+               f"the decoder stores `.{bad[0][0].key}` into {sym.pretty(bad[0][1])[:70]} - an object an earlier record's decoder "
+               f"returned and that has already been reported: a dump cut between the two records shows that trace differently "
+               f"from the complete dump", nontrivial=bool(bad), line=bad[0][0].lineno if bad else e.func.lineno,
+               witness="a dump cut after the first of the two records")
+    run.floor("R6", "decoders scanned", n, 400)
+
+
+def _is_parser_table(t: T) -> bool:
+    from ..decoders import PARSER
+    return t.op == "attr" and t.a[0] == PARSER
 
 
 def _is_stream(t: T) -> bool:
